@@ -27,6 +27,9 @@ def run(ctx, rep):
                    "swapped at the same positions", floor=3)
     _k1(ctx, rep)
     _k2(ctx, rep)
+    rep.rule("E1", "qutrit-to-qubit embedding: the coefficient of the identity padded onto the extra level makes the padded level physical "
+                   "(0 for a state, 1/N over the N POVM elements, 1/sqrt(N) over ALL N Kraus operators of a gate / measurement process)", floor=4)
+    _e1(ctx, rep)
     # ---- O1
     f = ix.func(OP + "_tensor_product")
     p1, p2 = f.params[0], f.params[1]
@@ -272,6 +275,86 @@ def _p2_hs(ctx, rep):
     if not sl_ok or not so_ok:
         problems.append("system_order / size_list are not the names and squared dimensions of the same concatenated system list")
     rep.check(not problems, "P2", h, con, "kron(vec HS1, vec HS2) reordered by I_d1 (x) K(d2,d1) (x) I_d2, then by subsystem name", "; ".join(problems), node=h.node)
+
+
+# ------------------------------------------------------------------------------ E1
+def _e1(ctx, rep):
+    """embedding qutrits into qubits pads every operator with coeff * I on the extra level; the padded level stays physical only if
+    the coefficients of ALL padded operators add up: sum c = 1 for POVM elements, sum c^2 = 1 for Kraus operators, c = 0 for a state"""
+    from ..astutil import deep_inline
+    from ..index import parents
+    kinds = {"state.State": "state", "povm.Povm": "povm", "gate.Gate": "kraus", "mprocess.MProcess": "kraus"}
+    for cq, kind in kinds.items():
+        c = ctx.ix.classes.get("quara.objects." + cq)
+        m = c.methods.get("_embed_qoperation_from_qutrits_to_qubits") if c is not None else None
+        if m is None:
+            continue
+        calls = [n for n in own_nodes(m.node) if isinstance(n, ast.Call) and (dotted(n.func) or "").endswith("_calc_matrix_from_qutrits_to_qubits")]
+        con = "%s: padding coefficient" % c.name
+        if len(calls) != 1:
+            rep.undecided("E1", m, con, "expected one call of _calc_matrix_from_qutrits_to_qubits, found %d" % len(calls))
+            continue
+        call = calls[0]
+        ce = kwarg(call, "coeff") or (call.args[3] if len(call.args) > 3 else None)
+        if ce is None:
+            rep.undecided("E1", m, con, "coefficient argument not found")
+            continue
+        ce = deep_inline(m, ce)
+        loops = [p for p in parents(call) if isinstance(p, ast.For)][::-1]      # outermost first
+        if kind == "state":
+            rep.check(is_num(ce, 0) and not loops, "E1", m, con, "density matrix padded with 0", "a state must be padded with 0 (got %s)" % unparse(ce), node=call)
+            continue
+        # 1 / N (povm)  or  1 / sqrt(N) (kraus)
+        N = None
+        if isinstance(ce, ast.BinOp) and isinstance(ce.op, ast.Div) and is_num(ce.left, 1):
+            d = ce.right
+            if kind == "povm":
+                N = d
+            elif isinstance(d, ast.Call) and (dotted(d.func) or "").split(".")[-1] == "sqrt" and len(d.args) == 1:
+                N = d.args[0]
+        if N is None:
+            rep.violation("E1", m, con, "the coefficient is %s; %s need 1/%s with N the number of padded operators"
+                          % (unparse(ce), "POVM elements" if kind == "povm" else "Kraus operators", "N" if kind == "povm" else "sqrt(N)"), node=call) \
+                if isinstance(ce, (ast.Constant, ast.BinOp)) else rep.undecided("E1", m, con, "coefficient %s not recognised" % unparse(ce))
+            continue
+        # how many operators are padded: one per iteration of the loop nest around the call
+        def len_of(e):
+            return unparse(e.args[0]) if isinstance(e, ast.Call) and dotted(e.func) == "len" and len(e.args) == 1 else None
+        if len(loops) == 1 and isinstance(loops[0].iter, ast.Name):
+            L = loops[0].iter.id
+            ok = len_of(N) in (L, unparse(deep_inline(m, loops[0].iter)))
+            rep.check(ok, "E1", m, con, "1/%s over the %s padded operators" % ("N" if kind == "povm" else "sqrt(N)", "len(%s)" % L),
+                      "the coefficient counts %s, but %s operators are padded (len(%s)): the padded level does not stay normalised"
+                      % (unparse(N), "all the", L), node=call)
+        elif len(loops) == 2 and isinstance(loops[0].iter, ast.Name) and isinstance(loops[0].target, ast.Name) \
+                and isinstance(loops[1].iter, ast.Name) and loops[1].iter.id == loops[0].target.id:
+            O = loops[0].iter.id
+            if len_of(N) in (O, unparse(deep_inline(m, loops[0].iter))):
+                rep.violation("E1", m, con, "the coefficient is 1/sqrt(len(%s)), the number of OUTCOMES; every Kraus operator of every outcome is padded, so the "
+                                            "padded level sums to (number of Kraus operators / number of outcomes) x I and the embedded process is not trace "
+                                            "preserving as soon as an outcome has more than one Kraus operator" % O, node=call)
+                continue
+            # an accumulator: acc += len(x) for every x appended to O (or for every x in O)
+            ok = False
+            if isinstance(N, ast.Name):
+                for a in own_nodes(m.node):
+                    if isinstance(a, ast.AugAssign) and isinstance(a.op, ast.Add) and isinstance(a.target, ast.Name) and a.target.id == N.id:
+                        x = len_of(a.value)
+                        lp = next((p for p in parents(a) if isinstance(p, ast.For)), None)
+                        if x and lp is not None:
+                            appended = any(isinstance(q, ast.Call) and isinstance(q.func, ast.Attribute) and q.func.attr == "append"
+                                           and unparse(q.func.value) == O and q.args and unparse(q.args[0]) == x for q in ast.walk(lp))
+                            iterated = isinstance(lp.iter, ast.Name) and lp.iter.id == O and unparse(lp.target) == x
+                            ok = ok or appended or iterated
+            elif isinstance(N, ast.Call) and dotted(N.func) == "sum" and N.args and isinstance(N.args[0], (ast.GeneratorExp, ast.ListComp)):
+                g = N.args[0]
+                ok = len(g.generators) == 1 and unparse(g.generators[0].iter) == O and len_of(g.elt) == unparse(g.generators[0].target)
+            if ok:
+                rep.holds("E1", m, con, "1/sqrt(total number of Kraus operators over all outcomes)", node=call)
+            else:
+                rep.undecided("E1", m, con, "count %s is not recognised as the total number of padded Kraus operators" % unparse(N))
+        else:
+            rep.undecided("E1", m, con, "loop nest around the padding call not recognised")
 
 
 # ------------------------------------------------------------------------------ K2
